@@ -1707,6 +1707,172 @@ def rule_mask_symmetry(chk, prog):
                         sorted(ref.values()) or "nothing", other, sorted(res[other].values()) or "nothing"),
                     instance="slmode=%s %s" % (mname, nm))
 
+# ----------------------------------------------------------------------------
+# rule: the per-feature dispatch of the list routines is decided by the list, not by the numbers
+# ----------------------------------------------------------------------------
+_META_ATTRS = {"shape", "ndim", "dtype", "size", "nbytes", "itemsize"}
+
+
+def _content_names(e):
+    """names whose *contents* the expression reads (metadata reads and *_like allocations excluded)"""
+    out = set()
+
+    def rec(n):
+        if isinstance(n, ast.Attribute) and n.attr in _META_ATTRS:
+            return
+        if isinstance(n, ast.Call):
+            f = pf.src(n.func)
+            if f == "len" or f.endswith("_like") or f in ("isinstance", "type", "np.ndim", "np.shape"):
+                return
+        if isinstance(n, ast.Name):
+            out.add(n.id)
+        for c in ast.iter_child_nodes(n):
+            rec(c)
+
+    rec(e)
+    return out
+
+
+def _param_taint(fn):
+    """local name -> set of array parameters whose contents it is computed from"""
+    params = [a.arg for a in fn.args.posonlyargs + fn.args.args + fn.args.kwonlyargs if a.arg not in ("self", "cls")]
+    taint = {p_: {p_} for p_ in params}
+
+    def names_of(t):
+        if isinstance(t, ast.Name):
+            return [t.id]
+        if isinstance(t, (ast.Tuple, ast.List)):
+            return [x for e in t.elts for x in names_of(e)]
+        if isinstance(t, ast.Starred):
+            return names_of(t.value)
+        return []
+
+    for _ in range(3):
+        for n in pf.walk_no_nested(fn):
+            if isinstance(n, ast.Assign):
+                tg, val = [x for t in n.targets for x in names_of(t)], n.value
+            elif isinstance(n, (ast.AugAssign, ast.AnnAssign)) and n.value is not None:
+                tg, val = names_of(n.target), n.value
+            elif isinstance(n, ast.For):
+                tg, val = names_of(n.target), n.iter
+            elif isinstance(n, ast.NamedExpr):
+                tg, val = names_of(n.target), n.value
+            else:
+                continue
+            src_ = set()
+            for nm in _content_names(val):
+                src_ |= taint.get(nm, set())
+            for t in tg:
+                if src_:
+                    taint.setdefault(t, set()).update(src_)
+    return params, taint
+
+
+def _exits(stmts):
+    return bool(stmts) and isinstance(stmts[-1], (ast.Continue, ast.Return, ast.Raise, ast.Break))
+
+
+def _dispatch_guards(call, fn):
+    """tests that decide, inside the innermost per-feature loop, whether `call` is executed"""
+    guards, node = [], call
+    while node is not fn and getattr(node, "_parent", None) is not None:
+        par = node._parent
+        if isinstance(par, (ast.If, ast.While)) and node is not par.test:
+            guards.append(par.test)
+        elif isinstance(par, ast.IfExp) and node is not par.test:
+            guards.append(par.test)
+        elif isinstance(par, (ast.ListComp, ast.SetComp, ast.GeneratorExp, ast.DictComp)):
+            for g in par.generators:
+                guards.extend(g.ifs)
+            return guards, par
+        for fld in ("body", "orelse", "finalbody"):
+            lst = getattr(par, fld, None)
+            if isinstance(lst, list) and node in lst:
+                for prev in lst[:lst.index(node)]:
+                    if isinstance(prev, ast.If) and (_exits(prev.body) or _exits(prev.orelse)):
+                        guards.append(prev.test)
+        if isinstance(par, ast.For) and node is not par.iter:
+            return guards, par
+        node = par
+    return guards, None
+
+
+def rule_dispatch_static(chk, prog):
+    """FeatNormalizerList: whether feature i goes through its normaliser or is copied is decided by the list
+    (self[i] is None), in the value routine and in both derivative routines alike.  A test on the *contents* of an
+    input array may only skip the delegated derivative call if the call is linear in what was tested, i.e. every
+    tangent-derived argument of the call is the tested expression itself."""
+    mod, ncls = normalizer_classes(prog)
+    elem_methods = set()
+    for c in ncls + [mod.cls("FeatNormalizer")]:
+        elem_methods |= {m for m in pf.methods(c) if not m.startswith("__")}
+    cls = mod.cls("FeatNormalizerList")
+    ms = dict(pf.methods(cls))
+    res_ = hinline.class_resolver(prog, mod, cls, exclude=("_get_rho_and_inh", "_get_drho_and_dinh", "_check_shape"))
+    for tag, nm, roles in LIST_ROUTINES:
+        if nm not in ms:
+            raise core.AnalysisError("FeatNormalizerList.%s vanished" % nm)
+        fn = hinline.inline_helpers(ms[nm], res_)
+        params, taint = _param_taint(fn)
+        if len(params) < len(roles):
+            raise core.AnalysisError("FeatNormalizerList.%s: expected %d array parameters, found %r" % (nm, len(roles), params))
+        primal, tangent = params[0], (params[1] if len(roles) > 1 else None)
+        for call in pf.walk_no_nested(fn):
+            if not (isinstance(call, ast.Call) and isinstance(call.func, ast.Attribute) and call.func.attr in elem_methods):
+                continue
+            recv = call.func.value
+            if isinstance(recv, ast.Name) and recv.id in ("self", "cls", "np", "super"):
+                continue
+            if isinstance(recv, ast.Call) and pf.src(recv.func) == "super":
+                continue
+            guards, loop = _dispatch_guards(call, fn)
+            if loop is None:
+                continue  # not a per-feature dispatch
+            inst = "%s routine %s: %s.%s(...) dispatched by [%s]" % (
+                tag, nm, pf.src(recv), call.func.attr, "; ".join(pf.src(g)[:60] for g in guards) or "nothing")
+            bad = None
+            for g in guards:
+                read = set()
+                for x in _content_names(g):
+                    read |= taint.get(x, set())
+                read &= {primal, tangent}
+                if not read:
+                    continue
+                if tag == "value":
+                    chk.note("dispatch-static", "%s:%s" % (FN, nm), "the dispatch test `%s` reads the features; the value "
+                             "routine is not decided by this rule" % pf.src(g)[:80])
+                    continue
+                if primal in read:
+                    bad = (g, "the raw features (%s)" % primal, "the normalisation factor of feature i does not become 1 "
+                           "where that test holds")
+                    break
+                tested = {pf.src(x) for x in ast.walk(g) if isinstance(x, ast.expr)}
+                args = list(call.args) + [k.value for k in call.keywords]
+                uncovered = []
+                for a in args:
+                    ta = set()
+                    for x in _content_names(a):
+                        ta |= taint.get(x, set())
+                    if tangent in ta and pf.src(a) not in tested:
+                        uncovered.append(pf.src(a))
+                if uncovered:
+                    bad = (g, "the %s array (%s)" % ("tangent" if tag == "forward" else "cotangent", tangent),
+                           "the delegated call also receives %s, which are computed from %s and are not covered by "
+                           "the test: their contribution (the part routed through the density / inhomogeneity "
+                           "variable) is dropped where the test holds" % (", ".join(uncovered), tangent))
+                    break
+            if bad is None:
+                chk.ok("dispatch-static", inst)
+            else:
+                g, what, why = bad
+                chk.violation("dispatch-static", FN, "FeatNormalizerList." + nm,
+                              "%s.%s dispatched by %s" % (pf.src(recv), call.func.attr, pf.src(g)), call.lineno,
+                              "%s-mode routine %s decides whether feature i goes through %s.%s by `%s`, a test on the "
+                              "contents of %s; the value routine applies the normaliser whenever the list has one, and %s: "
+                              "the derivative no longer matches the value and forward and reverse mode are no longer "
+                              "transposes" % (tag, nm, pf.src(recv), call.func.attr, pf.src(g), what, why),
+                              instance=inst)
+
 
 def analyse(chk):
     prog = pf.Program(chk.tree, [TD, FN])
@@ -1724,6 +1890,9 @@ def analyse(chk):
                              "column k in get_derivative_wrt_unnormed_features")
     chk.rule("mask-sym", "value, forward-mode and reverse-mode list routines overwrite their output under the same "
                          "live masks (a mask taken from an already clamped quantity is dead)")
+    chk.rule("dispatch-static", "list routines: whether feature i goes through its normaliser is decided by the list "
+                                "(self[i] is None), never by the contents of an input array unless the skipped call is "
+                                "linear in exactly what was tested")
     chk.rule("stateless", "evaluation routines do not reuse state written by an earlier call unless a test that "
                           "reads the array contents validates it")
     chk.rule("param-dep", "every parameter (self.<p>, not an index) read by fill_feat_ is read by fill_deriv_ unless it "
@@ -1740,6 +1909,7 @@ def analyse(chk):
     chk.guard(rule_normalizers, prog)
     chk.guard(rule_sl_transpose, prog)
     chk.guard(rule_mask_symmetry, prog)
+    chk.guard(rule_dispatch_static, prog)
     chk.guard(rule_stateless, prog)
     chk.guard(rule_param_dependence, prog)
     chk.guard(rule_deriv_symbolic, prog)
@@ -1755,6 +1925,7 @@ def analyse(chk):
     chk.floor("transpose", 8, "4 normaliser classes x (dx, fill_fwd factor) at least")
     chk.floor("sl-transpose", 8, "4 slmode branches x (rho, inh)")
     chk.floor("mask-sym", 4, "4 slmode branches")
+    chk.floor("dispatch-static", 2, "one delegated call in each of the 3 list routines")
     chk.floor("stateless", 12, "21 map classes + 4 normaliser classes")
     chk.floor("param-dep", 10, "21 map classes")
     chk.floor("deriv-symbolic", 30, "20 of 21 map classes decided today (42 inputs), 4 normaliser classes x 3, "
@@ -1786,6 +1957,13 @@ def mutants(tree):
     v3j = "dfdx[j] -= dfdy * self.gamma / (1 + self.gamma * x[j]) ** 2"
     inh_bwd = "        dfdinh[:] += (\n            dfdxn * x * self.const1 * self.const2"
     return [
+        M("reverse mode copies the cotangent where the raw feature vanishes", FN,
+          "            if self[i] is not None:\n                self[i].fill_bwd(",
+          "            if self[i] is not None and X0T[:, i].any():\n                self[i].fill_bwd(", expect="dispatch-static"),
+        M("forward mode skips features whose own tangent vanishes", FN,
+          "            if self[i] is not None:\n                DX0TN[i] = self[i].get_normed_feature_deriv(",
+          "            if self[i] is not None and DX0T[i].any():\n                DX0TN[i] = self[i].get_normed_feature_deriv(",
+          expect="dispatch-static"),
         M("V3Map += -> =", TD, v3i, v3i.replace("dfdx[i] +=", "dfdx[i] ="), expect="accumulate"),
         M("UMap += -> = (class tested only alone)", TD,
           "        i = self.i\n        dfdx[i] += dfdy * self.gamma / (1 + self.gamma * x[i]) ** 2",
